@@ -25,6 +25,16 @@ Theorem C05_partial : forall c nw sched,
 Proof. exact c05_partial. Qed.
 Print Assumptions C05_partial.
 
+(* for the widest notion of quiescence -- no thread of the server can move at all: then nobody
+   is stuck on a lock (no deadlock), every worker is parked, and the predicate holds *)
+Theorem C05_partial_stuck : forall c nw sched,
+  1 <= hw c -> (0 < nw)%nat ->
+  quiescent (runc c nw sched) = true ->
+  in_kf_class (runc c nw sched) = false ->
+  quiescent_parked (runc c nw sched) = true /\ c05_ok (runc c nw sched) = true.
+Proof. exact c05_partial_stuck. Qed.
+Print Assumptions C05_partial_stuck.
+
 (* workers may also sit inside the application (a streaming application that waits for its
    consumer): then at most send_bytes - 1 bytes are left unsent (0 for the default send_bytes = 1) *)
 Theorem C05_app_partial : forall c nw sched,
